@@ -146,6 +146,10 @@ def implObs {V} (f : Fam V) (tuple : P V) : P (Option (V × List String)) := do
   let j3 ← bytes
   pure (some (v0, [f.tuple v0, hex j1, showO f o1, hex j2, showO f o2, hex j3]))
 
+def nMembers : J → Nat
+  | .obj ms => ms.length
+  | _ => 0
+
 def go {V} (f : Fam V) (tuple : P V) (mode : String) (body : Bytes) (rest : List String) (tagp : String) : String :=
   match (do let o ← implObs f tuple; done; pure o : P _) rest with
   | none => "bad-op"
@@ -158,14 +162,14 @@ def go {V} (f : Fam V) (tuple : P V) (mode : String) (body : Bytes) (rest : List
       | some v, some (_, obs) =>
         (match firstDiff names (chain f v) obs with
          | some d => d
-         | none => s!"ok {tagp}-parsed-len{min (body.length / 100) 6}")
+         | none => s!"ok {tagp}-parsed-m{nMembers (f.ser v)}-len{min (body.length / 100) 6}")
     else
       match impl with
       | none => "bad-op"
       | some (v, obs) =>
         (match firstDiff names (chain f v) obs with
          | some d => d
-         | none => s!"ok {tagp}-built")
+         | none => s!"ok {tagp}-built-m{nMembers (f.ser v)}")
 
 def run (args : List String) : String :=
   let head : P (Nat × Nat × String × Bytes × Option Bytes × Option Bytes × Int × Int × Bool) := do
